@@ -161,7 +161,85 @@ def check_errors(inp):
     return None
 
 
-CHECKS = {'ops': check_ops, 'errors': check_errors}
+def embed(tt, sub, allv):
+    """Truth table over allv of a function given by its table over the variables sub."""
+    out = 0
+    idx = [allv.index(v) for v in sub]
+    for k in range(1 << len(allv)):
+        j = 0
+        for pos, i in enumerate(idx):
+            if (k >> i) & 1:
+                j |= 1 << pos
+        if (tt >> j) & 1:
+            out |= 1 << k
+    return out
+
+
+def check_two_orderings(inp):
+    """One session, TWO orderings of the same variables (each operation uses one of them): f over the
+    variables A and g over the variables B are built and combined under the first ordering, the
+    results are kept, then everything is built and combined again under the second ordering, then
+    once more under the first.  Hash-consing makes diagrams of different orderings share nodes (all
+    of them when the orderings agree on an operand's own variables): every result must still be the
+    right function, reduced and ordered for ITS ordering."""
+    OBDD, BDDNode = _lib()
+    A, B = list(inp['A']), list(inp['B'])
+    allv = tuple(sorted(set(inp['order'])))
+    n = len(allv)
+    full = bdd.tt_full(n)
+    fa = inp['fa'] & bdd.tt_full(len(A))
+    gb = inp['gb'] & bdd.tt_full(len(B))
+    ft, gt = embed(fa, A, allv), embed(gb, B, allv)
+    held = []
+    try:
+        for rnd, order in enumerate((inp['order'], inp['order2'], inp['order'])):
+            order = list(order)
+            of = OBDD(bdd.to_str(bdd.minterm_expr(fa, tuple(A))), list(order))
+            og = OBDD(bdd.to_str(bdd.minterm_expr(gb, tuple(B))), list(order))
+            for who, o, tt in (('f', of, ft), ('g', og, gt)):
+                p = inspect(o, tt, allv, order, 'round %d, ordering %s: parsing %s' % (rnd, order, who))
+                if p:
+                    return Failure('two_orderings', inp, 'correct reduced ordered diagram', p)
+            res = []
+            for op in ('and', 'or', 'xor'):
+                for (x, y, xt, yt, nm) in ((of, og, ft, gt, 'f %s g'), (og, of, gt, ft, 'g %s f')):
+                    r = apply_op(op, x, y)
+                    want = OPS[op](xt, yt)
+                    p = inspect(r, want, allv, order, 'round %d, ordering %s: %s' % (rnd, order, nm % op))
+                    if p:
+                        return Failure('two_orderings', inp, 'correct reduced ordered diagram', p)
+                    res.append((r, want, nm % op))
+            # results combined with each other: (f op g) xor (g op f) is the constant 0
+            for i in range(0, len(res), 2):
+                z = res[i][0] ^ res[i + 1][0]
+                p = inspect(z, 0, allv, order, 'round %d, ordering %s: (%s) xor (%s)' % (rnd, order, res[i][2], res[i + 1][2]))
+                if p:
+                    return Failure('two_orderings', inp, 'the constant 0, no variables', p)
+                nr = ~res[i][0]
+                p = inspect(nr, full & ~res[i][1], allv, order, 'round %d, ordering %s: ~(%s)' % (rnd, order, res[i][2]))
+                if p:
+                    return Failure('two_orderings', inp, 'correct reduced ordered diagram', p)
+                v = order[(i + rnd) % len(order)]
+                rr = res[i][0].restrict(v, 1)
+                p = inspect(rr, bdd.cofactor(res[i][1], allv.index(v), True, n), allv, order,
+                            'round %d, ordering %s: (%s).restrict(%r, 1)' % (rnd, order, res[i][2], v))
+                if p:
+                    return Failure('two_orderings', inp, 'correct reduced ordered diagram', p)
+            held.append((order, of, og, res))
+            # everything built in earlier rounds is still what it was
+            for (o_, f_, g_, res_) in held:
+                for (r, want, nm) in res_:
+                    p = inspect(r, want, allv, o_, 'result %s of ordering %s, looked at again in round %d' % (nm, o_, rnd))
+                    if p:
+                        return Failure('two_orderings', inp, 'earlier results unchanged', p)
+    except core.HarnessError:
+        raise
+    except Exception as e:
+        return Failure('two_orderings', inp, 'no exception', 'raised %s: %s' % (type(e).__name__, e))
+    return None
+
+
+CHECKS = {'ops': check_ops, 'errors': check_errors, 'two_orderings': check_two_orderings}
 
 
 def replay(ctx, rec):
@@ -307,5 +385,53 @@ def random_shard(st, shard, nshards, payload):
         return fr
 
     f = core.hyp_run(payload['seed'] * 1000 + shard, case, body, payload['n'])
+    if f is not None:
+        st.failure = f
+        return
+
+    names = list(VARS5) + ['g', 'h', 'i']
+
+    @hs.composite
+    def two_s(draw):
+        n = draw(hs.sampled_from([3, 4, 5, 6, 7, 8, 9]))
+        vs = names[:n]
+        kind = draw(hs.sampled_from(['disjoint', 'disjoint', 'disjoint', 'overlap', 'any']))
+        perm = list(draw(hs.permutations(vs)))
+        a = draw(hs.integers(1, min(6, n - 1)))
+        A = sorted(perm[:a])
+        if kind == 'disjoint':
+            rest = perm[a:]
+            B = sorted(rest[:draw(hs.integers(1, min(4, len(rest))))])
+        else:
+            B = sorted(draw(hs.lists(hs.sampled_from(vs), min_size=1, max_size=min(4, n), unique=True)))
+        order = list(draw(hs.permutations(vs)))
+        if kind == 'any':
+            order2 = list(draw(hs.permutations(vs)))
+        else:
+            # another interleaving that keeps the relative order inside A and inside the rest
+            sa = [v for v in order if v in A]
+            sb = [v for v in order if v not in A]
+            picks = draw(hs.lists(hs.booleans(), min_size=n, max_size=n))
+            order2 = []
+            for pk in picks:
+                src = sa if (pk and sa) or not sb else sb
+                order2.append(src.pop(0))
+        fa = draw(hs.integers(1, bdd.tt_full(len(A)) - 1))
+        if draw(hs.booleans()):
+            fa = draw(hs.integers(0, bdd.tt_full(len(A)))) ^ (fa >> 1)      # denser tables: bigger diagrams
+        return {'A': A, 'B': B, 'fa': fa, 'gb': draw(hs.integers(1, max(1, bdd.tt_full(len(B)) - 1))),
+                'order': order, 'order2': order2, 'kind': kind}
+
+    def body2(inp):
+        nt = inp['order'] != inp['order2'] and len(inp['A']) >= 3
+        st.random_case(inp, nt)
+        st.bump('two orderings in one session: %s supports, %d variables' % (inp['kind'], len(inp['order'])))
+        if len(inp['A']) >= 5 and inp['kind'] == 'disjoint' and inp['order'] != inp['order2']:
+            st.bump('two orderings: left operand over >= 5 variables, disjoint supports, different interleavings')
+        if nt:
+            st.sample(inp, cls='two-orderings-%s' % inp['kind'])
+        return check_two_orderings(inp)
+
+    f = core.hyp_run(payload['seed'] * 1000 + 300 + shard, two_s(), body2, max(20, payload['n'] // 3))
     if f is not None:
         st.failure = f
